@@ -188,6 +188,26 @@ def run(ctx):
                 else:
                     ctx.bad('MPT-C06c', f, 'pending_frame_inserts is set to a constant without apply_records having run', line=st['line'], detail='counter-reset')
     ctx.floor('MPT-C06c:resets', n_reset, 2, 'resets of pending_frame_inserts')
+    # converse: whoever materialises the pending inserts (apply_records) resets the counter before returning Ok - otherwise
+    # next_frame_id() = len + counter counts the same frames twice
+    n_apply = 0
+    for f in sorted(F.fns.values(), key=lambda x: x.path):
+        if f.is_closure:
+            continue
+        for a in f.calls_to('Memvid::apply_records'):
+            n_apply += 1
+            ctx.evaluations += 1
+            ctx.touch(f, 1)
+            sb, _ = f.success_block(a)
+            resets = {st['bb'] for st in lib.field_stores(f, 'Memvid', 'pending_frame_inserts')
+                      if st['rv']['k'] == 'use' and (st['rv'].get('a', {}).get('k') or {}).get('v') == 0 and sb is not None and f.dominates(sb, st['bb'])}
+            exits = {ex['bb'] for ex in f.ok_exits()}
+            if sb is not None and not (f.reachable(sb, avoid=resets) & exits):
+                ctx.ok('MPT-C06c', f, 'every Ok path after apply_records resets pending_frame_inserts', line=a.line)
+            else:
+                ctx.bad('MPT-C06c', f, 'apply_records materialises the pending inserts but an Ok exit is reachable without pending_frame_inserts being reset: next_frame_id() (= frames.len() + counter) '
+                        'counts those frames twice until some other commit path resets it', line=a.line, sink='Memvid.pending_frame_inserts', detail='counter-not-reset-after-apply')
+    ctx.floor('MPT-C06c:applies', n_apply, 2, 'callers of apply_records')
     nf = ctx.need('MPT-C06c', 'Memvid::next_frame_id')
     if nf is not None:
         ctx.touch(nf, len(nf.blocks))
